@@ -172,7 +172,8 @@ enum Form
     PTR,
     VEC_IT,
     LIST_IT,
-    MOVE_IT
+    MOVE_IT,
+    REV_IT
 };
 
 template <class T>
@@ -293,6 +294,10 @@ bool run_form(int form, Result& r)
                 return true;
             case MOVE_IT:
                 do_emplace<false, T>(r, N, std::make_move_iterator(vec.begin()));
+                read_after<S>(r, vec);
+                return true;
+            case REV_IT:
+                do_emplace<false, T>(r, N, vec.rbegin());
                 read_after<S>(r, vec);
                 return true;
             default: break;
